@@ -3,6 +3,7 @@ package c03
 import (
 	"bytes"
 	"encoding/xml"
+	"errors"
 	"fmt"
 	"io"
 	"regexp"
@@ -131,6 +132,9 @@ func onlyWS(b []byte) bool {
 	return true
 }
 
+// errMultiRoot: the message holds more than one document.
+var errMultiRoot = errors.New("more than one document in one message")
+
 type doc struct {
 	declEnd int // > 0: an XML declaration occupies in[:declEnd]
 	root    *node
@@ -157,6 +161,9 @@ func parseDoc(in []byte) (*doc, error) {
 		switch x := t.(type) {
 		case xml.ProcInst:
 			if x.Target == "xml" {
+				if rootDone {
+					return nil, fmt.Errorf("%w: XML declaration at offset %d, after a complete root element", errMultiRoot, b)
+				}
 				if !first || b != 0 {
 					return nil, fmt.Errorf("XML declaration at offset %d, not at the start", b)
 				}
@@ -168,7 +175,7 @@ func parseDoc(in []byte) (*doc, error) {
 			n := &node{name: x.Name, attrs: append([]xml.Attr(nil), x.Attr...), b: b, sEnd: e}
 			if len(stack) == 0 {
 				if rootDone {
-					return nil, fmt.Errorf("second root element <%s> at offset %d", x.Name.Local, b)
+					return nil, fmt.Errorf("%w: second root element <%s> at offset %d", errMultiRoot, x.Name.Local, b)
 				}
 				dc.root = n
 			} else {
@@ -234,6 +241,9 @@ func checkStructure(in []byte, rq Req, header, force bool) (id int, c *complaint
 	op := opOf(rq.Shape)
 	dc, err := parseDoc(in)
 	if err != nil {
+		if errors.Is(err, errMultiRoot) {
+			return 0, bad("c03/xml:more-than-one-rpc-in-message", "%v: %s", err, clip(in))
+		}
 		if force {
 			// judged (and classified) against the unforced twin by the caller
 			return 0, bad("c03/self-closing-rewrite:not-well-formed", "Input is not well-formed XML: %v", err)
